@@ -67,7 +67,12 @@ fn run_case(t: &mut Tracer, c: &Value, car: &Carrier, idx: usize) {
     let sha = hex(&Sha256::digest(&car.hdr));
     match c["digest"].as_str().unwrap() {
         "match" => s.push((273, T_STRING, s_v(&sha))),
-        "mismatch" => s.push((273, T_STRING, s_v(&format!("{}{}", if sha.starts_with('0') { "1" } else { "0" }, &sha[1..])))),
+        // a digest that differs: one digit changed, a proper prefix of the right one, or nothing at all
+        "mismatch" => s.push((273, T_STRING, s_v(&match idx % 4 {
+            0 | 1 => format!("{}{}", if sha.starts_with('0') { "1" } else { "0" }, &sha[1..]),
+            2 => sha[..sha.len() - 1 - (idx / 4) % 40].to_string(),
+            _ => String::new(),
+        }))),
         _ => {}
     }
     let op = &c["openpgp"];
